@@ -44,6 +44,12 @@ def run(ctx, rep):
         rep.guarded("R06-ARITY", lambda: br.rule_arity(t, rep, "R06-ARITY"))
         rep.guarded("R06-FORCE", lambda: r_force(sh, rep, t))
     rep.guarded("R06-REPR", lambda: cast_rules.rule_cast(sh, rep, "R06-REPR"))
+    rep.rule("R06-ZIP", "type equality and unification compare the lengths of argument lists wherever they zip them", floor=3)
+    rep.rule("R06-OPAQUE", "convert_opaque_type (opaque erasure) recurses into every component of every type constructor", floor=5)
+    rep.rule("R06-CASTDIR", "the allow_cast flag of unify depends on the expected type only (casts go towards Data)", floor=3)
+    rep.guarded("R06-ZIP", lambda: r_zip(sh, rep))
+    rep.guarded("R06-OPAQUE", lambda: r_opaque(sh, rep))
+    rep.guarded("R06-CASTDIR", lambda: r_castdir(sh, rep))
 
 
 def builtin_chains(fn_body):
@@ -153,3 +159,91 @@ def r_force(sh, rep, t):
                     a = c["args"][1] if len(c["args"]) > 1 else None
                     ok = a is not None and a["k"] == "MethodCall" and a["m"] == "force_count"
                     rep.check(ok, "R06-FORCE", "%s::%s#apply_builtin_forces" % (rel.split("/")[-1], q), sh.loc(rel, c), "apply_builtin_forces must be given <builtin>.force_count(), not %s" % (sh.nsrc(rel, a) if a else None))
+
+
+# ---------------------------------------------------------------------------------------------------------
+# Three clauses of the checker itself (answers to seeded changes; each is a necessary condition of soundness)
+# ---------------------------------------------------------------------------------------------------------
+TP = "crates/aiken-lang/src/tipo.rs"
+ENVF = "crates/aiken-lang/src/tipo/environment.rs"
+
+
+def _idents(sh, rel, e):
+    out = set()
+    for n in walk(e):
+        if n["k"] == "Path" and "::" not in n["p"] and n["p"] not in ("self", "Some", "None", "Ok", "Err"):
+            out.add(n["p"])
+        if n["k"] == "Field" and isinstance(n.get("f"), str):
+            out.add(n["f"])
+    return out
+
+
+def r_zip(sh, rep):
+    """type equality / unification over argument lists: a `zip` compares only the common prefix, so each zip of two
+    argument lists must sit next to an equality of their lengths"""
+    n = 0
+    targets = []
+    for im in find_impls(sh.file(TP), "Type", trait="PartialEq"):
+        for f in im["items"]:
+            if f["k"] == "Fn" and f["name"] == "eq":
+                targets.append((TP, "<Type as PartialEq>::eq", f))
+    try:
+        targets.append((ENVF, "Environment::unify", find_method(sh.file(ENVF), "Environment", "unify")))
+    except AnchorMissing:
+        pass
+    if not targets:
+        raise AnchorMissing("impl PartialEq for Type")
+    for rel, q, f in targets:
+        rep.touched(rel, q)
+        for m in matches_in(f["body"]):
+            for a in m["arms"]:
+                zips = [c for c in walk(a["body"]) if c["k"] == "MethodCall" and c["m"] == "zip"]
+                for z in zips:
+                    n += 1
+                    scope = [a["body"]] + ([a["guard"]] if "guard" in a else [])
+                    lens = [b for sc in scope for b in walk(sc) if b["k"] == "Binary" and b["op"] in ("==", "!=") and all(isinstance(x, dict) and x.get("k") == "MethodCall" and x.get("m") == "len" for x in (b["l"], b["r"]))]
+                    # two array literals of the same fixed length need no test
+                    def arr_len(e):
+                        while e["k"] == "MethodCall" and e["m"] in ("into_iter", "iter"):
+                            e = e["recv"]
+                        return len(e["es"]) if e["k"] == "Array" else None
+                    la, lb = arr_len(z["recv"]), arr_len(z["args"][0]) if z["args"] else None
+                    if la is not None and la == lb:
+                        rep.ok("R06-ZIP", "%s#%s#fixed-size-zip#%d" % (q, sh.nsrc(rel, a["pat"])[:30], n), sh.loc(rel, z), why="two array literals of length %d" % la, nontrivial=False)
+                        continue
+                    rep.check(bool(lens), "R06-ZIP", "%s#%s#zip-with-length-test#%d" % (q, sh.nsrc(rel, a["pat"])[:30], n), sh.loc(rel, z), "%s compares two argument lists with zip() in the arm `%s` without comparing their lengths: zip stops at the shorter list, so a function (or type application) is equal to / unifies with one of another arity whenever one list is a prefix of the other — a callback of the wrong arity is accepted and fails at run time" % (q, sh.nsrc(rel, a["pat"])[:50]))
+    return n
+
+
+def r_opaque(sh, rep):
+    """opaque erasure must reach every component of every type constructor"""
+    fj = sh.file(TP)
+    f = find_fn(fj, "convert_opaque_type")
+    ten = find_enum(fj, "Type")
+    traversal_check(rep, "R06-OPAQUE", sh, TP, "convert_opaque_type", f, ten, ["Type"], require_recursion={"convert_opaque_type"}, exceptions={"Var": "follows the link inside the RefCell"})
+
+
+def r_castdir(sh, rep):
+    """unify(expected, given, location, allow_cast): the implicit cast is *to* Data, inserted by the code generator on the
+    given value; whether it is allowed may depend on the expected side only"""
+    n = 0
+    for rel in sh.files():
+        if not rel.startswith("crates/aiken-lang/src/tipo/") or "/tests" in rel:
+            continue
+        fj = sh.file(rel)
+        for q, f in all_fns(fj):
+            if "body" not in f:
+                continue
+            for c in walk(f["body"]):
+                if c["k"] == "MethodCall" and c["m"] == "unify" and len(c["args"]) == 4 and c["args"][3]["k"] != "Lit":
+                    flag = c["args"][3]
+                    if not any(x["k"] == "MethodCall" and x["m"] == "is_data" for x in walk(flag)):
+                        continue
+                    n += 1
+                    exp_ids, giv_ids, flag_ids = _idents(sh, rel, c["args"][0]), _idents(sh, rel, c["args"][1]), set()
+                    for x in walk(flag):
+                        if x["k"] == "MethodCall" and x["m"] == "is_data":
+                            flag_ids |= _idents(sh, rel, x["recv"])
+                    only_given = (flag_ids & giv_ids) - exp_ids
+                    rep.check(not only_given, "R06-CASTDIR", "%s#unify#%d" % (q, n), sh.loc(rel, c), "%s allows the implicit Data cast depending on `%s`, which belongs to the *given* type (%s), not the expected one: the checker then accepts a Data value where a concrete type is expected, but the code generator only inserts casts towards Data — the callee receives raw Data and fails with a structural type mismatch" % (q, sorted(only_given), sh.nsrc(rel, c["args"][1])[:60]), sample={"flag": sh.nsrc(rel, flag)[:80]})
+    return n
